@@ -78,3 +78,22 @@ pub proof fn lemma_shr_bound(x: usize, ab: usize, rem: nat)
     lemma_pow2_adds(ab as nat, (rem - ab) as nat);
     lemma_index_in_cap(x as nat, ab as nat, (rem - ab) as nat, rem);
 }
+
+// len == n * k  =>  chunks(k) yields exactly n chunks and chunk i is [i*k, (i+1)*k)
+pub proof fn lemma_chunks_exact(len: int, k: int, n: int, i: int)
+    requires
+        k > 0,
+        n >= 0,
+        len == n * k,
+        0 <= i,
+    ensures
+        len % k == 0,
+        len / k == n,
+        i < n ==> i * k < len && (i + 1) * k <= len,
+{
+    vstd::arithmetic::div_mod::lemma_fundamental_div_mod_converse(len, k, n, 0);
+    if i < n {
+        vstd::arithmetic::mul::lemma_mul_inequality(i + 1, n, k);
+        vstd::arithmetic::mul::lemma_mul_is_distributive_add_other_way(k, i, 1);
+    }
+}
